@@ -17,15 +17,25 @@ package kvindex
 //@   ensures gone: !has(idx.Fields, path)
 //@   ensures others: forall f:Str :: f != path ==> (has(idx.Fields, f) <==> old(has(idx.Fields, f)))
 
-// ListFields lists the persisted field keys. Every registered field is persisted
-// (AddField writes both), so every key of the registry occurs in the listing.
-// TRUSTED here: the scan over the key-value store is proved under C09.
+// ListFields = a scan of the persisted field keys ("f" NUL field): every stored field
+// key is listed (by its parsed field name) and nothing else is.
 //@ func (*KVIndex).ListFields
-//@   trusted
-//@   pure
-//@   fresh
-//@   ensures covers: forall f:Str :: has(idx.Fields, f) ==> (exists j :: 0 <= j && j < len(result) && result[j] == f)
+//@   property C09 C04
+//@   option prelude=keys,kv
+//@   option load=kvi
+//@   option globals=kvindex
+//@   modifies KV.it SH.Str alloc
+//@   requires nonnil: idx != nil && idx.KV != nil
+//@   loop 101 invariant pos: itvalid() ==> kvhas(itpos()) && ble(fPrefix, itpos())
+//@   loop 101 invariant store: same(kvdom(), old(kvdom()))
+//@   loop 101 invariant shape: soff(out) == 0 && len(out) >= 0
+//@   loop 101 invariant done: forall k:Str :: kvhas(k) && hasprefix(k, fPrefix) && (!itvalid() || blt(k, itpos())) ==>
+//@       (exists j :: 0 <= j && j < len(out) && out[j] == slnth(bsplit(k, sep0), 1))
+//@   loop 101 invariant only: forall j :: 0 <= j && j < len(out) ==> (exists k:Str :: kvhas(k) && hasprefix(k, fPrefix) && out[j] == slnth(bsplit(k, sep0), 1))
+//@   ensures covers: forall k:Str :: kvhas(k) && hasprefix(k, "f") ==> (exists j :: 0 <= j && j < len(result) && result[j] == slnth(bsplit(k, sep0), 1))
+//@   ensures only: forall j :: 0 <= j && j < len(result) ==> (exists k:Str :: kvhas(k) && hasprefix(k, "f") && result[j] == slnth(bsplit(k, sep0), 1))
 //@   ensures shape: soff(result) == 0 && len(result) >= 0
+//@   ensures store: same(kvdom(), old(kvdom())) && same(kvvals(), old(kvvals()))
 
 // AddDocTx writes only keys of the index families; the graph key families are left
 // alone. TRUSTED here (proved under C09 together with the index invariant).
@@ -44,3 +54,21 @@ package kvindex
 //@   requires nonnil: idx != nil && idx.Fields != nil && idx.KV != nil
 //@   ensures registered: has(idx.Fields, path)
 //@   ensures kvframe: forall k:Str :: !idxkey(k) ==> ((kvhas(k) <==> old(kvhas(k))) && kvval(k) == old(kvval(k)))
+
+// ---- C04: the in-memory registry is a function of the store ------------------------
+// After NewIndex the registry of indexed fields equals the set of persisted field keys,
+// so an index opened on an existing store indexes new documents exactly like the
+// instance that wrote the store.
+//@ func NewIndex
+//@   property C04
+//@   option prelude=keys,kv
+//@   option load=kvi
+//@   option globals=kvindex
+//@   modifies KV.it SH. MapD.Str MapN MapV. alloc H.kvindex.KVIndex.
+//@   requires nonnil: kv != nil
+//@   loop 1 invariant added: forall j :: 0 <= j && j <= rangeindex ==> has(idx.Fields, fields[j])
+//@   loop 1 invariant only: forall f:Str :: has(idx.Fields, f) ==> (exists j :: 0 <= j && j <= rangeindex && fields[j] == f)
+//@   loop 1 invariant shape: idx != nil && idx.Fields != nil && idx.KV == kv && rangeindex < len(fields)
+//@   ensures rep1: forall k:Str :: kvhas(k) && hasprefix(k, "f") ==> has(result.Fields, slnth(bsplit(k, sep0), 1))
+//@   ensures rep2: forall f:Str :: has(result.Fields, f) ==> (exists k:Str :: kvhas(k) && hasprefix(k, "f") && slnth(bsplit(k, sep0), 1) == f)
+//@   ensures store: same(kvdom(), old(kvdom())) && same(kvvals(), old(kvvals()))
